@@ -749,45 +749,50 @@ def write_use_graph(root, g, main, with_code, broken=None):
 # =============================================================================================
 # shrinking (ddmin over tokens, then characters), driven by the same oracle
 # =============================================================================================
-def shrink(drv, workdir, case, key, budget_rounds=14, timeout=10):
-    """Greedy chunk removal; every round evaluates all candidates of one granularity in one
-    parallel batch and keeps the smallest input that still yields `key`."""
-    cur = case.data
+def ddmin(data, test_batch, budget_rounds=14, max_cands=64):
+    """Greedy chunk removal.  test_batch(list of bytes) -> list of bool (candidate still fails the same
+    way); every round evaluates all candidates of one granularity in one parallel batch and keeps the
+    smallest one that still fails.  Returns (smallest input found, number of candidates tried)."""
+    cur = data
     units = tokenize(cur) if len(cur) < 200000 else [cur[i:i + 64] for i in range(0, len(cur), 64)]
-    rounds = 0
-    n = 2
-    tested = 0
+    rounds, n, tested = 0, 2, 0
+    chars = False
     while rounds < budget_rounds and len(units) >= 2:
         rounds += 1
         size = max(1, len(units) // n)
-        cands = []
-        for s in range(0, len(units), size):
-            cands.append(units[:s] + units[s + size:])
-        cands = cands[:64]
-        cs = [Case("s%d" % k, case.cls, b"".join(u), case.mode, case.path) for k, u in enumerate(cands)]
-        obs = run_cases(drv, cs, workdir, timeout=timeout, tag="s")
-        tested += len(cs)
-        ver = classify(list(obs.values()))
+        cands = [units[:s] + units[s + size:] for s in range(0, len(units), size)][:max_cands]
+        res = test_batch([b"".join(u) for u in cands])
+        tested += len(cands)
         hit = None
-        for k, c in enumerate(cs):
-            kind, kk, _ = judge(c, obs.get(c.id), ver)
-            if kk == key and kind in ("violation", "asan-stack", "timeout"):
-                if hit is None or len(c.data) < len(cs[hit].data):
-                    hit = k
+        for k, okk in enumerate(res):
+            if okk and (hit is None or sum(map(len, cands[k])) < sum(map(len, cands[hit]))):
+                hit = k
         if hit is not None:
             units = cands[hit]
             n = max(n - 1, 2)
+        elif size == 1:
+            joined = b"".join(units)
+            if not chars and any(len(u) > 8 for u in units) and len(joined) < 4000 and rounds < budget_rounds - 2:
+                units = [joined[i:i + 1] for i in range(len(joined))]
+                n, chars = 2, True
+                continue
+            break
         else:
-            if size == 1:
-                # switch to characters once, if tokens are long
-                joined = b"".join(units)
-                if any(len(u) > 8 for u in units) and len(joined) < 4000 and rounds < budget_rounds - 2:
-                    units = [joined[i:i + 1] for i in range(len(joined))]
-                    n = 2
-                    continue
-                break
             n = min(len(units), n * 2)
     return b"".join(units), tested
+
+
+def shrink(drv, workdir, case, key, budget_rounds=14, timeout=10):
+    def test(cands):
+        cs = [Case("s%d" % k, case.cls, d, case.mode, case.path) for k, d in enumerate(cands)]
+        obs = run_cases(drv, cs, workdir, timeout=timeout, tag="s")
+        ver = classify(list(obs.values()))
+        out = []
+        for c in cs:
+            kind, kk, _ = judge(c, obs.get(c.id), ver)
+            out.append(kk == key and kind in ("violation", "asan-stack", "timeout"))
+        return out
+    return ddmin(case.data, test, budget_rounds)
 
 
 def show_input(data, limit=600):
